@@ -207,6 +207,8 @@ class Snapshot:
                 storage=storage,
                 event_loop=event_loop,
             )
+        # Don't let any rank return before the snapshot is committed
+        pg_wrapper.barrier()
 
         storage.sync_close(event_loop=event_loop)
         event_loop.close()
